@@ -563,7 +563,8 @@ func (ex *Exec) resolveImport(pkgPath, local string) *types.Package {
 	for _, imp := range pp.Types.Imports() {
 		byPath[imp.Path()] = imp
 	}
-	var fallback *types.Package
+	// an import under the package's own name wins over an alias of the same spelling in another file
+	var plain, aliased *types.Package
 	for _, f := range pp.Syntax {
 		for _, im := range f.Imports {
 			path, _ := strconv.Unquote(im.Path.Value)
@@ -572,17 +573,20 @@ func (ex *Exec) resolveImport(pkgPath, local string) *types.Package {
 				continue
 			}
 			if im.Name != nil {
-				if im.Name.Name == local {
-					return ip
+				if im.Name.Name == local && aliased == nil {
+					aliased = ip
 				}
 				continue
 			}
 			if ip.Name() == local {
-				fallback = ip
+				plain = ip
 			}
 		}
 	}
-	return fallback
+	if plain != nil {
+		return plain
+	}
+	return aliased
 }
 
 func (c *EvalCtx) importAlias(name string) string {
